@@ -257,7 +257,8 @@ def cmd_shrink(args):
         'violation': v, 'event_digest': res.get('digest'),
         'original_ops': len(ops), 'minimised_ops': len(final), 'shrink_tests': tests, 'note': note,
     }
-    path = os.path.join(ROOT, 'replays', f'{prop}-{raw.get("base_seed")}-{raw.get("run")}.json')
+    rdir = os.environ.get('VERIF_REPLAY_DIR') or os.path.join(ROOT, 'replays')
+    path = os.path.join(rdir, f'{prop}-{raw.get("base_seed")}-{raw.get("run")}.json')
     write_replay(path, rec)
     print(path)
     return 0 if not note else 4
@@ -431,8 +432,9 @@ def write_evidence(prop, tier, seed, agg, eng, wall, nruns, groups, workers, kno
         'assumptions': info.get('assumptions', []), 'wall_s': round(wall, 2),
         'violations': len(replays),
     }
-    os.makedirs(os.path.join(ROOT, 'evidence'), exist_ok=True)
-    path = os.path.join(ROOT, 'evidence', f'{prop}.json')
+    edir = os.environ.get('VERIF_EVIDENCE_DIR') or os.path.join(ROOT, 'evidence')
+    os.makedirs(edir, exist_ok=True)
+    path = os.path.join(edir, f'{prop}.json')
     tmp = path + '.tmp'
     with open(tmp, 'w') as f:
         json.dump(ev, f, indent=1, sort_keys=True, default=repr)
